@@ -170,6 +170,17 @@ func (s *Store) RegisterSourceSplitter(splitter connectors.SourceSplitter) {
 	s.sourceSplitters = []connectors.SourceSplitter{splitter}
 }
 
+// AbandonPendingCheckpoint drops a checkpoint that is still waiting for
+// acknowledgements. The job calls this when it starts a new assembly: the
+// members of the previous assembly are redeployed from the last completed
+// checkpoint and will never acknowledge the one that was in progress. Late
+// acknowledgements for the abandoned ID are rejected like any other stale ID.
+func (s *Store) AbandonPendingCheckpoint() {
+	s.stateMu.Lock()
+	defer s.stateMu.Unlock()
+	s.state.pendingSnapshot = nil
+}
+
 func (s *Store) finishSnapshot(snap *jobSnapshot) {
 	// Get the source splitter checkpoints
 	if len(s.sourceSplitters) != 1 {
